@@ -57,10 +57,11 @@ CHECKS.update({
          "and are evaluated on every explored model state, which is compared cache for cache (with order) with the library; under the invariant the closure queries and every circulator list / valence / "
          "is_boundary equal the brute-force sets (Properties_C01_queries.v). Preservation of the invariant by every incremental update path is NOT proved (obstacle: halfface re-ordering, see the file).",
          "Coq proof (recompute exact, sound checkers, queries = brute force under the invariant) + lock step of caches and all accessors + brute-force oracles", "6 C01"),
- "C04": ("proof", "Theorems: after collect_garbage / leaving deferred mode no deletion is pending (all counters zero through the whole nest of passes), modes restored, every array one element per slot; "
-         "identity without pending deletions. 'Logical mesh unchanged', equivalence with immediate deletion and StatusAttrib handle tracking are tied by lock step and decided on the library by the "
-         "identity-token oracle, not proved.",
-         "Coq proof (post-conditions of collection) + lock-step correspondence + logical-mesh oracle", "6 C04"),
+ "C04": ("proof", "Theorems: after collect_garbage / leaving deferred mode no deletion is pending, modes restored, every array one element per slot, identity without pending deletions; under an invariant "
+         "proved for every deferred history, collect_garbage yields exactly the logical mesh (definitions renamed by rank, every property array = the live slots; fast mode: a bijection that definitions "
+         "and values follow); equality with immediate deletion (single deletion from any invariant state, deletion on top of pending ones, lists of deletions); StatusAttrib::garbage_collection: tracked "
+         "handles map to their image or invalid, the manifoldness pass flags exactly the unbounded faces/edges/vertices. Tied by lock step and the identity-token oracle.",
+         "Coq proof (collection = logical mesh = immediate deletion; tracking; manifoldness) + lock-step correspondence + logical-mesh oracle", "6 C04"),
  "C12": ("proof", "Theorems: toggling a kind changes only its cache and flag; re-enabling yields exactly the incidences (vertex, face kinds in full; edge kind before re-ordering); the deleted closure and the "
          "slot exchange of swaps are independent of the enabled subset. 'No out-of-range access with a kind disabled' is decided by sanitizers on the lock-step runs in all 32 mode cells and the twin-mesh oracle.",
          "Coq proof (re-enable exact, closure independent of caches) + lock step in all incidence subsets x deletion modes under sanitizers + twin-mesh oracle", "6 C12"),
